@@ -131,11 +131,21 @@ func VerifC19Collector() {
 		vAssume(!enabled)
 		vCover("no-interval")
 	}
-	cfg := &Config{Enabled: enabled, Interval: interval, DataDir: secretDir}
+	// the data directory: set, or left empty (a Config filled in by hand)
+	dataDir := secretDir
+	if vChoose(2) == 1 {
+		dataDir = ""
+		vCover("no-data-dir")
+	}
+	cfg := &Config{Enabled: enabled, Interval: interval, DataDir: dataDir}
 	version := "v-test"
 	c, err := New(cfg, version, vLog{})
-	vAssert(err == nil, "collector initialises")
+	if dataDir != "" {
+		vAssert(err == nil, "collector initialises")
+	}
 	if err != nil {
+		// no collector: in particular no request, whatever the switch says
+		vAssert(len(vEffectsLog) == 0, "no collector: no request is made")
 		return
 	}
 	c.Start()
